@@ -226,18 +226,30 @@ func runC19(c *eng.Ctx) {
 	// ---- 4. worker pool: panic -> panic handler -----------------------------------------------------
 	c.Rule("ORDER", poolT+".execTask{recover->panicHandle}", func() {
 		f := c.Fn(poolT + ".execTask")
-		if len(f.AnonFuncs) == 0 {
-			c.Undecided("execTask has no deferred closure")
+		// the deferred function that recovers: a function literal or a method deferred directly
+		var rec *ssa.Function
+		deferredFn := func(df *ssa.Defer) *ssa.Function {
+			if g := df.Call.StaticCallee(); g != nil && g.Blocks != nil {
+				return g
+			}
+			return eng.FuncOfValue(df.Call.Value)
 		}
-		rec := f.AnonFuncs[0]
+		for _, b := range f.Blocks {
+			for _, in := range b.Instrs {
+				if df, ok := in.(*ssa.Defer); ok {
+					if g := deferredFn(df); g != nil && len(p.SitesDirect(g, eng.CallTo("builtin:recover"))) > 0 {
+						rec = g
+					}
+				}
+			}
+		}
+		if rec == nil {
+			c.Undecided("execTask defers no function that calls recover() directly")
+		}
 		d := c.Some(f, func(p *eng.Prog, in ssa.Instruction) bool {
 			df, ok := in.(*ssa.Defer)
-			if !ok {
-				return false
-			}
-			mc, ok := df.Call.Value.(*ssa.MakeClosure)
-			return ok && mc.Fn == ssa.Value(rec)
-		}, "defer of the recover closure")
+			return ok && deferredFn(df) == rec
+		}, "defer of the recovering function")
 		run := c.One(f, eng.CallTo("internal/concurrent.Task.Exec"), "task.Exec()")
 		c.Check(eng.DominatedBy(f, run.Instr, d, nil), "defer<exec", run.Instr, f, "the recover block is installed before the task runs", "task.Exec reachable without the deferred recover")
 		r := c.One(rec, eng.CallTo("builtin:recover"), "recover()")
@@ -488,6 +500,11 @@ func runC19(c *eng.Ctx) {
 			}
 			for _, s := range p.SitesDirect(fn, eng.CallTo("builtin:recover")) {
 				top := topFunc(c, fn)
+				if !allowed[top] {
+					if o := ownerThroughCallers(c, fn, []string{plT + ".Execute", poolT + ".execTask"}, 0, map[*ssa.Function]bool{}); o != "" {
+						top = o // a helper deferred by a designated handler
+					}
+				}
 				n++
 				c.Check(allowed[top], "recover@"+top, s.Instr, fn, "on the query execution path a panic is recovered only by pipeline.Execute and by the worker pool's task wrapper (both turn it into the stage's / pipeline's error); a recover anywhere below would let a panicking operator look successful", "recover() in "+top)
 			}
